@@ -294,7 +294,7 @@ def _vm_size_bytes():
 
 
 def fork_call(fn, args=(), timeout=60.0, as_extra=1 << 30, faultlog_path=None, stream=False,
-              on_record=None, quiet=False):
+              on_record=None, quiet=False, cpu_limit=None):
     """Run fn(*args) in a fork of this process (the pristine zygote).
 
     The child returns a JSON-serialisable value through a pipe.  With stream=True the
@@ -321,6 +321,14 @@ def fork_call(fn, args=(), timeout=60.0, as_extra=1 << 30, faultlog_path=None, s
                 resource.setrlimit(resource.RLIMIT_CORE, (0, 0))
             except Exception:
                 pass
+            if cpu_limit:
+                # CPU-time budget: unlike wall time it does not depend on how busy the machine is.  SIGXCPU
+                # terminates the child; the parent sees the signal as an outcome.
+                try:
+                    used = int(time.process_time()) + 1
+                    resource.setrlimit(resource.RLIMIT_CPU, (used + int(cpu_limit), used + int(cpu_limit) + 5))
+                except Exception:
+                    pass
             if as_extra:
                 lim = _vm_size_bytes() + as_extra
                 try:
@@ -337,6 +345,10 @@ def fork_call(fn, args=(), timeout=60.0, as_extra=1 << 30, faultlog_path=None, s
             if faultlog_path:
                 flog = open(faultlog_path, "w")
                 faulthandler.enable(file=flog, all_threads=False)
+                try:
+                    faulthandler.register(signal.SIGXCPU, file=flog, all_threads=False, chain=True)
+                except Exception:
+                    pass
                 faulthandler.dump_traceback_later(max(1.0, timeout - 0.5), repeat=False, file=flog)
             out = os.fdopen(wfd, "wb", buffering=0)
 
